@@ -550,10 +550,11 @@ func toGeneric(v interface{}) interface{} {
 	return x
 }
 
-// digestText: files with a generated ID may be derived files, whose header carries the clock
-// of the moment they were derived (columns 24-33 of the file header record)
-func digestText(b []byte, sym string) string {
-	if strings.HasPrefix(sym, "g") && len(b) > 33 && b[0] == '1' {
+// digestText: derived files carry the clock of the moment they were derived in columns 24-33
+// of the file header record, and a text body does not say whether it is derived: those ten
+// columns are never compared in text form (the JSON projections compare them for stored files)
+func digestText(b []byte, _ string) string {
+	if len(b) > 33 && b[0] == '1' {
 		c := append([]byte{}, b...)
 		for i := 23; i < 33; i++ {
 			c[i] = 'X'
@@ -1099,6 +1100,7 @@ type genState struct {
 	// result of flatten/segment): balance mutates those shared records, which the
 	// per-object terms do not describe
 	related map[string]bool
+	added   map[string][]int // batch bodies sent to an id so far (so that get/delete/duplicate hit them)
 	flatSrc map[string]bool // sources of a flatten
 	flatRel map[string]bool // sources and results of a flatten
 }
@@ -1184,13 +1186,26 @@ func (g *genState) next(s *srv, allowBalance bool) *request {
 	case k < 62:
 		return &request{kind: "DELETE", id: g.anyID(s)}
 	case k < 72:
-		return &request{kind: "ADDBATCH", id: g.anyID(s), body: r.Intn(len(g.p.batches))}
+		q := &request{kind: "ADDBATCH", id: g.anyID(s), body: r.Intn(len(g.p.batches))}
+		if a := g.added[q.id]; len(a) > 0 && r.Chance(1, 4) {
+			q.body = rng.Pick(r, a)
+		}
+		g.added[q.id] = append(g.added[q.id], q.body)
+		return q
 	case k < 76:
-		return &request{kind: "GETBATCH", id: g.anyID(s), k: r.Intn(len(g.p.batches))}
+		q := &request{kind: "GETBATCH", id: g.anyID(s), k: r.Intn(len(g.p.batches))}
+		if a := g.added[q.id]; len(a) > 0 && r.Chance(3, 4) {
+			q.k = rng.Pick(r, a)
+		}
+		return q
 	case k < 79:
 		return &request{kind: "LISTBATCHES", id: g.anyID(s)}
 	case k < 83:
-		return &request{kind: "DELBATCH", id: g.anyID(s), k: r.Intn(len(g.p.batches))}
+		q := &request{kind: "DELBATCH", id: g.anyID(s), k: r.Intn(len(g.p.batches))}
+		if a := g.added[q.id]; len(a) > 0 && r.Chance(3, 4) {
+			q.k = rng.Pick(r, a)
+		}
+		return q
 	case k < 94:
 		// flatten / segment / balance rewrite batch headers and entries that a derived file
 		// shares with its source; only files with no such relative are sent there
@@ -1257,7 +1272,7 @@ func (g *genState) admissible(q *request) *request {
 }
 
 func newGen(r *rng.R, p *pools, tv, jv []int) *genState {
-	g := &genState{r: r, p: p, valid: tv, jsonV: jv, related: map[string]bool{}, flatSrc: map[string]bool{}, flatRel: map[string]bool{}}
+	g := &genState{r: r, p: p, valid: tv, jsonV: jv, related: map[string]bool{}, flatSrc: map[string]bool{}, flatRel: map[string]bool{}, added: map[string][]int{}}
 	n := r.Range(1, 3)
 	for i := 1; i <= n; i++ {
 		g.ids = append(g.ids, fmt.Sprintf("c%d", i))
